@@ -411,12 +411,37 @@ class Engine:
                 st.assume(*h.dict_wf(get_ref(v.t)))
                 return SeqView(h.dlen(get_ref(v.t)), h.dkeys(get_ref(v.t)), elem_ty=None)
             if ty == "str":
-                raise Unsupported("iteration over str")
+                # the characters, one by one
+                i = z3.Int("chr_i")
+                x = smt.get_s(v.t)
+                return SeqView(z3.Length(x), z3.Lambda([i], smt.VStr(z3.SubString(x, i, 1))), elem_ty="str")
             if ty is None:
-                t = self.static_ty(st, v, ["list", "tuple", "dict", "set"])
+                t = self.static_ty(st, v, ["list", "tuple", "dict", "set", "str"])
                 if t is not None:
                     return self.seq_of(st, self.with_ty(st, v, t))
         raise Unsupported(f"iteration over {v!r}")
+
+    def iter_sources(self, st, v):
+        """the iterable of a loop / comprehension as [(SeqView, state)]: a value whose type the path condition does not
+        settle splits the path by type (str / list / tuple / dict / set; anything else is a TypeError path)"""
+        if isinstance(v, SeqView):
+            return [(v, st)]
+        if isinstance(v, SV) and v.ty is None and not self.spec:
+            t = self.static_ty(st, v, ["list", "tuple", "dict", "set", "str"])
+            if t is not None:
+                return [(self.seq_of(st, self.with_ty(st, v, t)), st)]
+            if t is None:
+                out, rest = [], st
+                for c in ["list", "tuple", "dict", "set", "str"]:
+                    if rest is None:
+                        break
+                    yes, rest = self.branch(rest, self.ty_cond(v, c))
+                    if yes is not None:
+                        out.append((self.seq_of(yes, self.with_ty(yes, v, c)), yes))
+                if rest is not None:
+                    self.raise_exc(rest, TypeError)
+                return out
+        return [(self.seq_of(st, v), st)]
 
     def field_closed(self, st, name):
         """entry-state attribute arrays only hold references allocated at entry (once per field)"""
